@@ -1,0 +1,79 @@
+// SPDX-FileCopyrightText: 2026 The Pion community <https://pion.ly>
+// SPDX-License-Identifier: MIT
+
+package turn
+
+import (
+	"net"
+	"sync"
+)
+
+// relayListenerPorts remembers the ports of the live TCP relay listeners a generator has
+// handed out. The listeners are bound with SO_REUSEPORT (the outgoing connections of an
+// allocation share its relayed address), so binding a port a second time succeeds: the
+// kernel does not tell that the port belongs to another allocation.
+type relayListenerPorts struct {
+	lock  sync.Mutex
+	ports map[int]struct{}
+}
+
+func (p *relayListenerPorts) reserve(port int) bool {
+	p.lock.Lock()
+	defer p.lock.Unlock()
+
+	if _, taken := p.ports[port]; taken {
+		return false
+	}
+	if p.ports == nil {
+		p.ports = map[int]struct{}{}
+	}
+	p.ports[port] = struct{}{}
+
+	return true
+}
+
+func (p *relayListenerPorts) release(port int) {
+	p.lock.Lock()
+	defer p.lock.Unlock()
+
+	delete(p.ports, port)
+}
+
+// listen binds a listener with bind, unless the requested port is held by a live listener
+// of this generator. The listener returned gives its port back when it is closed.
+func (p *relayListenerPorts) listen(requestedPort int, bind func() (net.Listener, error)) (net.Listener, error) {
+	if requestedPort != 0 && !p.reserve(requestedPort) {
+		return nil, errRelayPortInUse
+	}
+
+	ln, err := bind()
+	if err != nil {
+		if requestedPort != 0 {
+			p.release(requestedPort)
+		}
+
+		return nil, err
+	}
+
+	port := requestedPort
+	if tcpAddr, ok := ln.Addr().(*net.TCPAddr); ok && port == 0 {
+		// Chosen by the kernel, which only picks ports nobody is bound to.
+		port = tcpAddr.Port
+		p.reserve(port)
+	}
+
+	return &relayListener{Listener: ln, release: func() { p.release(port) }}, nil
+}
+
+type relayListener struct {
+	net.Listener
+	release func()
+	once    sync.Once
+}
+
+func (l *relayListener) Close() error {
+	err := l.Listener.Close()
+	l.once.Do(l.release)
+
+	return err
+}
